@@ -107,8 +107,14 @@ def universe(ctx, toks, key, maxlen, icase, extra=()):
     ex = list(extra)
     if icase:
         ex += [c.swapcase() for c in gen.pattern_chars(toks) if c.isalpha()]
-    names, _alpha = gen.name_universe(toks, rng, maxlen=maxlen, sigma_cap=5, extra=ex, icase=icase,
-                                      fresh='C' if icase else 'c')
+    names, alpha = gen.name_universe(toks, rng, maxlen=maxlen, sigma_cap=5, extra=ex, icase=icase,
+                                     fresh='C' if icase else 'c')
+    # a small class of names ending in a newline (`$` inside look-aheads)
+    for _ in range(3):
+        d = gen.derive(rng, toks, alpha, icase=icase)
+        if d is not None and '/' not in d:
+            names.append(d + '\n')
+    names.append('a\n')
     return names
 
 
